@@ -60,3 +60,17 @@ def mk_problem_sticky(nobjs, maxdirs=None, nconstrs=0, nvars=1):
     p = mk_problem(nobjs, maxdirs, nconstrs, nvars)
     _STICKY[0], _STICKY[1] = key, p
     return p
+
+
+def parse_num(text):
+    """inverse of repr() for the numbers the drivers use as objective values: Python ints (exact, may exceed 2**53),
+    fractions.Fraction and floats"""
+    from fractions import Fraction
+    t = str(text)
+    if t.startswith("Fraction("):
+        a, b = t[len("Fraction("):-1].split(",")
+        return Fraction(int(a), int(b))
+    try:
+        return int(t)
+    except ValueError:
+        return float(t)
